@@ -87,9 +87,13 @@ CLAIMS = {
             "7 C10", "Partial: kernel datagram boundaries and the scheduler are not modelled.", "Lean 4 proof + differential correspondence (clean/dirty buffers, queued serialisation)"),
     "C11": ("proof", "Theorems (Props/C11.lean): the messages extracted from a byte stream are a function of the stream, not of its segmentation (C11_segmentation_independent, "
             "C11_any_split_exact, C11_exact_messages, C11_messages_then); a line read in fragments is their concatenation, and the uncopied variant corrupts (C11_fragments_joined, "
-            "C11_fragments_uncopied_corrupt). Tie: generated message sequences under scripted segmentations (exhaustive single/double cuts, random cuts to 1-byte segments, 20 KiB "
-            "lines, SIP-looking bodies, keep-alives) through the REAL per-connection loop TCPServerTransport.receiveMessage over a connection double that delivers exactly the scripted segments, with queued serialisation.",
-            "7 C11", "Partial: bufio.Reader is represented by its contract (Reader/Frame.lean).", "Lean 4 proof + exhaustive/random segmentation correspondence"),
+            "C11_fragments_uncopied_corrupt). The reader is no longer taken at its contract: Reader/Bufio.lean is an operational model of bufio.Reader (ReadSlice/ReadLine with ErrBufferFull fragments and CR put-back, "
+            "ReadByte/UnreadByte, Read under io.CopyN) and of message.go's readLine join loop, skipWhiteSpace and ParseMessage on it; for EVERY segmentation and EVERY buffer size >= 2 the operational loop "
+            "extracts exactly the messages of the logical stream (C11_bufio_refines, C11_bufio_segmentation_independent, C11_bufio_any_split_exact, C11_bufio_readLine_any_length, C11_bufio_udp; Lemmas/Bufio.lean). "
+            "Tie: generated message sequences under scripted segmentations (exhaustive single/double cuts, random cuts to 1-byte segments, 20 KiB "
+            "lines, SIP-looking bodies, keep-alives) through the REAL per-connection loop TCPServerTransport.receiveMessage over a connection double that delivers exactly the scripted segments, with queued serialisation; "
+            "ops blines/bparse run the real readLine / ParseMessage on a real bufio.Reader of capacity N (16..4096) against the operational reader model (fragment boundaries, CR at the last byte of the buffer, CR CR LF, unterminated ends).",
+            "7 C11 and 14.8", "Partial: the kernel's TCP stack is outside the model; the operational bufio model retries empty Reads for ever (io.ErrNoProgress after 100 is not modelled) and treats every read error as end of stream; slice aliasing of the first ReadLine fragment is covered by joinFragments + regenerated fact F8, not by the operational model.", "Lean 4 proof (refinement of an operational bufio.Reader model to the logical stream) + exhaustive/random segmentation correspondence"),
     "C12": ("proof", "Theorems (Props/C12.lean): the transport key determines (host, port, transaction) and distinct transactions of received messages never share a key, "
             "with no hypothesis on the method (C12_key_injective, C12_tid_method_no_blank, C12_distinct_transactions_distinct_keys); registration then lookup under any interleaving "
             "of other keys answers with the request's connection (C12_invariant, C12_registered_lookup, C12_two_connections_same_address); the registration key is the lookup key "
